@@ -104,7 +104,9 @@ def seed_key(seed, prop, i):
 
 def run_seeded(mod, seed, i, keep_kinds=False):
     rng = random.Random(seed_key(seed, mod.PROP, i))
-    ch = Choices(rng=rng, keep_kinds=keep_kinds)
+    # a property module may stratify its first run indices: a fixed choice prefix (then the PRNG takes over)
+    prefix = mod.systematic(i) if hasattr(mod, "systematic") else None
+    ch = Choices(replay=prefix, rng=rng, keep_kinds=keep_kinds)
     res = _run(mod, ch)
     res["run_index"] = i
     return res
